@@ -70,7 +70,14 @@ let parse_opts fs =
         o_f_unplanned = z_of_string fu }
   | _ -> failwith "bad opt line"
 
-let unit_key (inp : input) (u : int) : int =
+let the_gi : ginput option ref = ref None
+
+let rec unit_key (inp : input) (u : int) : int =
+  if u >= List.length inp.in_units then
+    (match !the_gi with
+     | Some g -> 1000 + List.fold_left (fun m mu -> min m (unit_key inp (n2i mu))) max_int (members_of g (i2n u))
+     | None -> max_int)
+  else
   let un = get_unit inp (i2n u) in
   List.fold_left (fun m s -> min m (n2i s)) max_int un.iu_stops
 
@@ -111,43 +118,67 @@ let snapshot id step (inp : input) (s : state) =
 let result_string = function
   | Done -> "done" | Rejected _ -> "notdone" | NotExecutable -> "notdone" | UndoFailed -> "error"
 
-(* relative plan op: RU RV RO R1..Rk -> (vehicle, [s; g; s; g ...]) as strings *)
-let resolve_plan (inp : input) (s : state) (orders : (int * int list) list) (fs : string list)
-  : (int * string list) option =
+(* gaps for one stops unit on vehicle v from raw numbers rs; None when a gap splits a direct pair *)
+let unit_places (inp : input) (s : state) (orders : (int * int list) list) (u : int) (v : int) (ro : int) (rs : int list)
+  : (int list * int array) option =
+  let key = unit_key inp u in
+  let ords = List.filter_map (fun (k, o) -> if k = key then Some o else None) orders in
+  if ords = [] then (prerr_endline (Printf.sprintf "no orders for key %d (unit %d)" key u); None) else
+  let order = List.nth ords (ro mod List.length ords) in
+  let l = List.length (List.nth s.st_routes v) in
+  let gaps = List.mapi (fun i _ -> 1 + (List.nth rs i) mod (l - 1)) order in
+  let gaps = Array.of_list (List.sort compare gaps) in
+  let ord = Array.of_list order in
+  let arcs = (get_unit inp (i2n u)).iu_arcs in
+  let is_direct a b = List.exists (fun ((x, y), d) -> d && n2i x = a && n2i y = b) arcs in
+  for i = 0 to Array.length ord - 2 do
+    if is_direct ord.(i) ord.(i+1) then gaps.(i+1) <- gaps.(i)
+  done;
+  let route = Array.of_list (List.map (fun c -> n2i c.c_stop) (List.nth s.st_routes v)) in
+  let splits g =
+    let a = route.(g-1) and b = route.(g) in
+    let ua = unit_of_stop inp a in
+    ua >= 0 && List.exists (fun ((x, y), d) -> d && n2i x = a && n2i y = b) (get_unit inp (i2n ua)).iu_arcs in
+  if Array.exists splits gaps then None else Some (order, gaps)
+
+(* relative plan op: RU RV RO R1..Rk; returns the chosen top-level id with what to execute *)
+type resolved = RNone | RUnit of int * string list | RGroup of int * int * (int * int list * int array) list
+
+let resolve_plan (inp : input) (g : ginput) (s : state) (orders : (int * int list) list) (fs : string list) : resolved =
   let ios = int_of_string in
-  let keys = List.sort compare (List.map (fun u -> unit_key inp (n2i u)) s.st_unplanned) in
-  if keys = [] then None else
+  let tops = List.sort (fun a b -> compare (fst a) (fst b)) (List.map (fun u -> (unit_key inp (n2i u), n2i u)) s.st_unplanned) in
+  if tops = [] then RNone else
   match fs with
   | ru :: rv :: ro :: rs ->
-      let key = List.nth keys (ios ru mod List.length keys) in
-      let ords = List.filter_map (fun (k, o) -> if k = key then Some o else None) orders in
-      if ords = [] then None else
-      let order = List.nth ords (ios ro mod List.length ords) in
-      let nv = List.length s.st_routes in
-      let v = ios rv mod nv in
-      let l = List.length (List.nth s.st_routes v) in
-      let gaps = List.mapi (fun i _ -> 1 + (ios (List.nth rs i)) mod (l - 1)) order in
-      let gaps = Array.of_list (List.sort compare gaps) in
-      let ord = Array.of_list order in
-      let u = unit_of_stop inp ord.(0) in
-      let arcs = (get_unit inp (i2n u)).iu_arcs in
-      let is_direct a b = List.exists (fun ((x, y), d) -> d && n2i x = a && n2i y = b) arcs in
-      for i = 0 to Array.length ord - 2 do
-        if is_direct ord.(i) ord.(i+1) then gaps.(i+1) <- gaps.(i)
-      done;
-      let route = Array.of_list (List.map (fun c -> n2i c.c_stop) (List.nth s.st_routes v)) in
-      let splits g =
-        let a = route.(g-1) and b = route.(g) in
-        let ua = unit_of_stop inp a in
-        ua >= 0 && List.exists (fun ((x, y), d) -> d && n2i x = a && n2i y = b) (get_unit inp (i2n ua)).iu_arcs in
-      if Array.exists splits gaps then None else
-      let args = List.concat (List.mapi (fun i st -> [string_of_int st; string_of_int gaps.(i)]) order) in
-      Some (v, args)
-  | _ -> None
+      let (_, id) = List.nth tops (ios ru mod List.length tops) in
+      if Sys.getenv_opt "VERIF_TRACE" <> None then prerr_endline (Printf.sprintf "resolve: id %d group %b members %d" id (is_group_id g (i2n id)) (List.length (members_of g (i2n id))));
+      let v = ios rv mod List.length s.st_routes in
+      let rs = List.map ios rs in
+      if is_group_id g (i2n id) && List.exists (fun mu -> unit_planned inp s mu) (members_of g (i2n id)) then RNone
+      else if is_group_id g (i2n id) then begin
+        let off = ref 0 in
+        let ok = ref true in
+        let subs = List.map (fun mu ->
+          let mu = n2i mu in
+          let nst = List.length (get_unit inp (i2n mu)).iu_stops in
+          let r = (match unit_places inp s orders mu v (ios ro) (List.filteri (fun i _ -> i >= !off) rs) with
+                   | Some (order, gaps) -> (mu, order, gaps)
+                   | None -> ok := false; (mu, [], [||])) in
+          off := !off + nst; r) (members_of g (i2n id)) in
+        if not !ok then RNone else RGroup (id, v, subs)
+      end else
+        (match unit_places inp s orders id v (ios ro) rs with
+         | None -> RNone
+         | Some (order, gaps) ->
+             RUnit (v, List.concat (List.mapi (fun i st -> [string_of_int st; string_of_int gaps.(i)]) order)))
+  | _ -> RNone
 
 let run_engine (id, lines) =
   let orders = ref [] in
   let users = ref [] in
+  let groups = ref [] in            (* lists of unit keys *)
+  let initials = ref [] in          (* (vehicle, [(stop, fixed)]) *)
+  let gi = ref None in
   let stops = ref [] and vehs = ref [] and units = ref [] and drows = ref [] and xrows = ref [] in
   let nres = ref 0 and opts = ref None in
   let inp = ref None and sols = ref [||] and cur = ref 0 and step = ref 0 in
@@ -155,6 +186,10 @@ let run_engine (id, lines) =
   try
   List.iter (fun fs ->
     match fs with
+    | "group" :: _ :: ks -> groups := !groups @ [List.map int_of_string ks]
+    | "initial" :: v :: _ :: r ->
+        let rec pairs = function a :: b :: t -> (i2n (int_of_string a), b = "1") :: pairs t | _ -> [] in
+        initials := !initials @ [(int_of_string v, pairs r)]
     | "nres" :: [k] -> nres := int_of_string k
     | ["user"; f; mx; vl; tp] ->
         let field =
@@ -175,7 +210,11 @@ let run_engine (id, lines) =
                   in_duration = List.rev !drows; in_distance = List.rev !xrows; in_nres = i2n !nres;
                   in_opts = (match !opts with Some o -> o | None -> failwith "no opt") } in
         inp := Some i;
-        (match new_solution i with
+        let g = { gi_inp = i;
+                  gi_groups = List.map (fun ks -> List.map (fun k -> i2n (unit_of_stop i k)) ks) !groups;
+                  gi_initial = List.mapi (fun v _ -> (try List.assoc v !initials with Not_found -> [])) i.in_vehicles } in
+        gi := Some g; the_gi := Some g;
+        (match g_new_solution g with
          | None -> Printf.printf "%s build solution-error\n" id; raise Exit
          | Some s ->
         sols := [| s |];
@@ -184,18 +223,47 @@ let run_engine (id, lines) =
     | "op" :: kind :: r ->
         let i = get_inp () in
         let s = !sols.(!cur) in
+        let g = (match !gi with Some g -> g | None -> failwith "no build") in
         let noop = ref false in
+        let handled = ref false in
+        let report res = Printf.printf "%s %d result %s\n" id !step (result_string res) in
         let (kind, r) =
           (match kind with
            | "planr" | "plancr" ->
-               (match resolve_plan i s !orders r with
-                | None -> noop := true; (kind, r)
-                | Some (v, args) -> ((if kind = "planr" then "plan" else "planchecked"), string_of_int v :: args))
+               (match resolve_plan i g s !orders r with
+                | RNone -> noop := true; (kind, r)
+                | RUnit (v, args) -> ((if kind = "planr" then "plan" else "planchecked"), string_of_int v :: args)
+                | RGroup (gid, v, subs) ->
+                    let route = Array.of_list (List.map (fun c -> n2i c.c_stop) (List.nth s.st_routes v)) in
+                    let sbs = List.map (fun (mu, order, gaps) ->
+                      { sb_unit = i2n mu; sb_vehicle = i2n v;
+                        sb_places = List.mapi (fun k st -> (i2n st, i2n route.(gaps.(k)))) order }) subs in
+                    let (s', res) = g_exec_units g s (i2n gid) sbs in
+                    if Sys.getenv_opt "VERIF_TRACE" <> None then prerr_endline ("group exec -> " ^ result_string res);
+                    !sols.(!cur) <- s'; report res; handled := true; (kind, r))
            | "unplanr" ->
-               let keys = List.sort compare (List.map (fun u -> unit_key i (n2i u)) s.st_planned) in
+               let tops = List.sort (fun a b -> compare (fst a) (fst b)) (List.map (fun u -> (unit_key i (n2i u), n2i u)) s.st_planned) in
+               if tops = [] then (noop := true; (kind, r))
+               else begin
+                 let (key, tid) = List.nth tops (int_of_string (List.hd r) mod List.length tops) in
+                 if is_group_id g (i2n tid) then begin
+                   let (s', res) = g_unplan_group g s (i2n tid) in
+                   !sols.(!cur) <- s'; report res; handled := true; (kind, r)
+                 end else ("unplan", [string_of_int (List.hd (List.map n2i (get_unit i (i2n tid)).iu_stops))])
+               end
+           | "munplanr" ->
+               let nu = List.length i.in_units in
+               let ms = List.filter (fun u -> (match member_group g (i2n u) with Some _ -> true | None -> false) && unit_planned i s (i2n u))
+                          (List.init nu (fun u -> u)) in
+               let keys = List.sort compare (List.map (fun u -> unit_key i u) ms) in
                if keys = [] then (noop := true; (kind, r))
                else ("unplan", [string_of_int (List.nth keys (int_of_string (List.hd r) mod List.length keys))])
+           | "vunplanr" ->
+               let v = int_of_string (List.hd r) mod List.length s.st_routes in
+               let (s', res) = g_unplan_vehicle g s (i2n v) in
+               !sols.(!cur) <- s'; report res; handled := true; (kind, r)
            | _ -> (kind, r)) in
+        if !handled then () else
         if !noop then Printf.printf "%s %d result noop\n" id !step else
         (match kind with
          | "plan" | "planchecked" ->
@@ -207,18 +275,19 @@ let run_engine (id, lines) =
                   let places = pairs rest in
                   let u = unit_of_stop i (int_of_string (List.hd rest)) in
                   let mv = { mv_unit = i2n u; mv_vehicle = i2n (int_of_string v); mv_places = places } in
+                  if unit_planned i s (i2n u) then Printf.printf "%s %d result moveerror\n" id !step else
                   let (s', res) =
-                    if kind = "plan" then exec_move i s mv
+                    if kind = "plan" then g_exec_move g s mv
                     else begin
-                      Printf.printf "%s %d move executable %b\n" id !step (move_executable i s mv);
-                      exec_checked i s mv
+                      Printf.printf "%s %d move executable %b\n" id !step (g_move_executable g s mv);
+                      g_exec_checked g s mv
                     end in
                   !sols.(!cur) <- s';
                   Printf.printf "%s %d result %s\n" id !step (result_string res)
               | _ -> failwith "bad plan op")
          | "unplan" ->
              let u = unit_of_stop i (int_of_string (List.hd r)) in
-             let (s', res) = unplan_unit i s (i2n u) in
+             let (s', res) = g_unplan_unit g s (i2n u) in
              !sols.(!cur) <- s';
              Printf.printf "%s %d result %s\n" id !step (result_string res)
          | "copy" ->
